@@ -27,7 +27,9 @@ def project(rng):
                  ("//:cmd", "run_command", ""), ("//pk:quiet", "run_command", "pk"), ("//:grp", "group", ""),
                  ("//pk:inner", "combine", "pk"), ("//:fickle", "run_command", ""),
                  # names that look like scratch / backup names of OTHER dependencies (entry names share one directory)
-                 ("//:a_tmp", "run_experiment", ""), ("//pk:cmd_old", "run_command", "pk"), ("//:a-new", "run_command", "")]
+                 ("//:a_tmp", "run_experiment", ""), ("//pk:cmd_old", "run_command", "pk"), ("//:a-new", "run_command", ""),
+                 # packages in different places whose directories have the SAME leaf name
+                 ("//m1/eval:ea", "run_experiment", "m1/eval"), ("//m2/eval:eb", "run_command", "m2/eval"), ("//pk/eval:ec", "run_experiment", "pk/eval")]
     tasks = []
     for ident, kind, pkg in deps_pool:
         name = ident.split(":")[1]
